@@ -7,6 +7,7 @@ ENGINES = [
     {"name": "E2 explore", "path": "engine/explore", "serves_properties": ["C01","C02","C03","C04","C05","C06","C07","C08","C11","C12","C13","C15"], "kind_free_text": "explicit-state depth/deviation-bounded DFS with canonical store hashing, 16 workers, sequential-replay confirmation"},
 ]
 NOT_CLAIMED = {}
+ENGINES.append({"name": "E5 twin", "path": "checks/twin.go", "serves_properties": ["C09","C10","C19","C20"], "kind_free_text": "raw-history twin/restart driver: in-process second instances with extra ABCI/query calls at every position, child replica processes (GOMAXPROCS 1/16/3), stop/re-open at every ABCI boundary, goleveldb + os.Exit process kills; 16 single-threaded worker processes"})
 ENGINES.append({"name": "E3 enum", "path": "checks/msgdom.go", "serves_properties": ["C14","C16","C17","C18"], "kind_free_text": "bounded-exhaustive input products (full Cartesian product or every combination of <= k non-default classes), minimal failing set reporting"})
 MC = "model_checking"
 claim("C01", MC, "explicit-state DFS over real DeliverTx + reference append-only log", "DESIGN.md §3 C01",
@@ -63,3 +64,10 @@ claim("C07", MC, "explicit-state DFS over deposit histories; real EndBlock execu
 claim("C08", MC, "explicit-state DFS over a combined 3-module graph; export/validate/InitChain/compare in every distinct state", "DESIGN.md §3 C08",
       "Every distinct state of a combined AOL+DID+PNFT graph (from an empty and a populated base state): export twice byte-identical, custom ValidateGenesis passes, InitChain of a fresh app succeeds, aol/did stores byte-identical and the PNFT query matrix identical on the imported chain, and its own export of the custom sections is byte-identical.",
       "Non-custom module sections are not compared.", "E1+E2")
+
+claim("C09", MC, "exhaustive enumeration of block histories x twin configurations (extra CheckTx/Simulate/query calls at every position, separate processes); equality of every observable at every height", "DESIGN.md §3 C09",
+      "Every history of length <= 2 (3 thorough) over a 12-entry mixed alphabet after a populating setup block, as one block and as one block per tx, is executed by node A and by every node-B configuration: second instance, CheckTx/Simulate before every tx, queries between all calls, one (two thorough) extra call at every position, and child processes with GOMAXPROCS 1/16/3 started at a different time; app hash, per-tx code/codespace/data/gas/events, EndBlock events, query answers and committed store hashes must agree at every height.",
+      "Atomic unit = ABCI/query call. Go map iteration order cannot be owned by the harness: every execution samples it (stated in evidence). Instruction-level interleavings inside SDK/IAVL are not enumerated.", "E1+E5")
+claim("C10", "fault_enumeration", "enumeration of every ABCI-boundary stop point of every history; stop, re-open, compare with the uninterrupted twin; process kills on goleveldb", "DESIGN.md §3 C10",
+      "For every history of C09's set and every stop point (after BeginBlock, after every prefix of the block's txs, after EndBlock, after Commit): stop, re-open on the same database (in-process on MemDB for all pairs; real processes on goleveldb killed with os.Exit for every 7th (2nd thorough) history), check LastBlockHeight/LastCommitID/committed stores against the twin, re-execute the rest and compare all hashes and results.",
+      "Crash points inside Commit (between DB batches) are SDK/IAVL territory and not enumerated; power-loss semantics out of scope.", "E1+E5")
